@@ -869,7 +869,7 @@ func runC16(t *testing.T, tier string) int {
 		return 2
 	}
 	defer func() { srv.stop() }()
-	total, crashes, errs, oks := 0, 0, 0, 0
+	total, crashes, errs, oks, inconclusive := 0, 0, 0, 0, 0
 	perRPC := map[string]int{}
 	codesSeen := map[string]int{}
 	var samples []any
@@ -970,7 +970,11 @@ func runC16(t *testing.T, tier string) int {
 					}
 				}
 			}
-			if err != nil {
+			if err != nil && code == codes.DeadlineExceeded && sp.name != "Pull" && sp.name != "StreamingPull" {
+				// the CLIENT gave up after 15 s (machine overloaded): the server may
+				// still have completed the request; no verdict for this one
+				inconclusive++
+			} else if err != nil {
 				errs++
 				if d := baseline.DiffIgnoring(after, sp.ignore...); d != "" {
 					sink.add(report.Viol{Property: "C16", Check: "C16/" + sp.name, Rule: "error-changed-state", Text: fmt.Sprintf("request %s was answered with %v but the tables changed:\n%s", desc, code, d), Trace: []string{desc, prototextOf(m)}})
@@ -986,9 +990,15 @@ func runC16(t *testing.T, tier string) int {
 			}
 			// wedge probe after slow requests
 			if time.Since(start) > 250*time.Millisecond {
-				pctx, pcancel := context.WithTimeout(context.Background(), 3*time.Second)
-				_, perr := srv.pub.GetTopic(pctx, &pubsubpb.GetTopicRequest{Topic: c16T1})
-				pcancel()
+				var perr error
+				for try := 0; try < 2; try++ {
+					pctx, pcancel := context.WithTimeout(context.Background(), 15*time.Second)
+					_, perr = srv.pub.GetTopic(pctx, &pubsubpb.GetTopicRequest{Topic: c16T1})
+					pcancel()
+					if perr == nil {
+						break
+					}
+				}
 				if perr != nil {
 					sink.add(report.Viol{Property: "C16", Check: "C16/" + sp.name, Rule: "server-wedged", Text: fmt.Sprintf("after request %s the server no longer answers GetTopic: %v", desc, perr), Trace: []string{desc}})
 					if err := restart(); err != nil {
@@ -1002,16 +1012,17 @@ func runC16(t *testing.T, tier string) int {
 		samples = append(samples, "none")
 	}
 	cov := map[string]any{
-		"evaluations":         total,
-		"distinct_nontrivial": errs,
-		"rule":                "per RPC: the valid base request and every request that deviates from it in at most 2 fields (thorough: 3 for the small RPCs), each field ranging over its boundary domain; sent over real TCP gRPC to a server subprocess built from grpc.NewGrpcService + services.InitializeGrpcServers; distinct_nontrivial = requests answered with an error status (each compared with the table dump before)",
-		"samples":             samples,
-		"per_rpc":             perRPC,
-		"status_codes":        codesSeen,
-		"ok_responses":        oks,
-		"error_responses":     errs,
-		"server_crashes":      crashes,
-		"exhaustive":          true,
+		"evaluations":                  total,
+		"inconclusive_client_timeouts": inconclusive,
+		"distinct_nontrivial":          errs,
+		"rule":                         "per RPC: the valid base request and every request that deviates from it in at most 2 fields (thorough: 3 for the small RPCs), each field ranging over its boundary domain; sent over real TCP gRPC to a server subprocess built from grpc.NewGrpcService + services.InitializeGrpcServers; distinct_nontrivial = requests answered with an error status (each compared with the table dump before)",
+		"samples":                      samples,
+		"per_rpc":                      perRPC,
+		"status_codes":                 codesSeen,
+		"ok_responses":                 oks,
+		"error_responses":              errs,
+		"server_crashes":               crashes,
+		"exhaustive":                   true,
 	}
 	ev := report.Evidence{PropertyID: "C16", Tier: tier, Seed: report.Seed(), Level: "exploration", Coverage: cov,
 		Assumptions: []string{"a failed Pull / StreamingPull may still have refreshed the subscription's expires_at (and a stream may have leased messages before it was cut)", "requests limited to <=2 (3) simultaneous field deviations from a valid request"}}
